@@ -21,15 +21,19 @@ func histories(r *core.Run, cfgs []HistCfg) []*core.Trace {
 			defer wg.Done()
 			defer func() { <-sem }()
 			done := make(chan struct{})
+			var tr *core.Trace
+			c.Tick = new(int64)
 			go func() {
 				defer close(done)
-				tr, _ := RunHistory(c)
-				traces[i] = tr
+				tr, _ = RunHistory(c)
 			}()
-			select {
-			case <-done:
-			case <-time.After(120 * time.Second):
+			switch core.WatchRun(c.Tick, done, 90*time.Second, 30*time.Minute) {
+			case "":
+				traces[i] = tr
+			case "hang": // no operation returned for 90 s
 				traces[i] = &core.Trace{Name: c.Name, Meta: c.String(), Events: []core.Event{{"ev": "Hang", "cfg": c.String()}}}
+			default:
+				r.Break("history %s did not finish within the budget (it kept making progress)", c.Name)
 			}
 		}(i, c)
 	}
